@@ -379,6 +379,7 @@ def gen_c08_case(rng: random.Random) -> Dict[str, Any]:
         # typed labels on the send (the message carries their text form plus a type table)
         "labels": rng.choice([None, None, None, {"priority": 5}, {"ratio": 0.5, "urgent": True}, {"n": 0, "tag": "x", "flag": False}]),
         "via_inmem": rng.choice([None, None, None, None, None, None, "startup", "plain"]),
+        "redeliver": rng.random() < 0.15,
     }
 
 
@@ -391,6 +392,23 @@ def _dep_plain() -> str:
 
 def _dep_int() -> int:
     return 7
+
+
+def _scribble(v: Any, depth: int = 0) -> None:
+    """In-place edits of every list / dict reachable from the received arguments."""
+    if depth > 6:
+        return
+    if isinstance(v, dict):
+        for x in list(v.values()):
+            _scribble(x, depth + 1)
+        try:
+            v["scribbled"] = True
+        except Exception:  # noqa: BLE001
+            pass
+    elif isinstance(v, list):
+        for x in v:
+            _scribble(x, depth + 1)
+        v.append("scribbled")
 
 
 def build_fn(case: Dict[str, Any]) -> Any:
@@ -436,7 +454,14 @@ def build_fn(case: Dict[str, Any]) -> Any:
         parts.append("**extra" if a == "none" else f"**extra: {a}")
     body = "{" + ", ".join([f"{n!r}: {n}" for n in names] + (["'*rest': list(rest)"] if "star" in va else [])
                            + (["'**extra': dict(extra)"] if "dstar" in va else [])) + "}"
-    src = f"{'async ' if case['async'] else ''}def gen_task({', '.join(parts)}):\n    _REC.append({body})\n    return 1\n"
+    rec_line = f"_REC.append({body})"
+    if case.get("redeliver"):
+        # the function works on its arguments in place (pops items off a list argument, adds a key to a dict one) after
+        # a copy of what it received was recorded
+        rec_line = f"_got = {body}; _REC.append(_copy.deepcopy(_got)); _scribble(_got)"
+        ns["_copy"] = __import__("copy")
+        ns["_scribble"] = _scribble
+    src = f"{'async ' if case['async'] else ''}def gen_task({', '.join(parts)}):\n    {rec_line}\n    return 1\n"
     exec(src, ns)  # noqa: S102
     fn = ns["gen_task"]
     fn.__module__ = "mon.args_labels"
@@ -576,6 +601,13 @@ def _run_c08_inner(case: Dict[str, Any], fn: Any, src: str, broker: Any, early_r
             await receiver.callback(prior)
             del _REC[:]
         await receiver.callback(bm.message)
+        if case.get("redeliver") and len(_REC) == 1:
+            # the broker delivers the same bytes once more (at-least-once delivery, a re-sent call): a message of its own
+            first_rec = _REC.pop()
+            await receiver.callback(bytes(bm.message))
+            if len(_REC) == 1 and not strict_eq(_REC[0], first_rec):
+                v.append(Violation("redelivery-differs", f"{case['fmt']}: the same bytes delivered twice; the first execution received "
+                                   f"{first_rec!r}, the second {_REC[0]!r} (signature {src.splitlines()[0]})"))
         if case.get("via_inmem") == "startup":
             await broker.shutdown()
 
